@@ -70,7 +70,7 @@ namespace verif::e2 {
     // per-harness extensions: extra site prefixes to record, and a record filter (true = drop the
     // record; used for high-frequency polling sites whose uninteresting values are stutter)
     inline bool (*g_wanted_extra)(char const*) = nullptr;
-    inline bool (*g_drop)(char const* site, std::uint64_t a, std::uint64_t b) = nullptr;
+    inline bool (*g_drop)(char const* site, void const* obj, std::uint64_t a, std::uint64_t b) = nullptr;
 
     inline bool wanted(char const* s)
     {
@@ -132,7 +132,7 @@ namespace verif::e2 {
             return;
         }
         if (!tl_holding) lock();
-        if (g_drop != nullptr && g_drop(site, a, b)) {}
+        if (g_drop != nullptr && g_drop(site, obj, a, b)) {}
         else if (g_log->size() < g_max_records) g_log->push_back(rec{os, site, obj, a, b});
         else g_overflow.store(true);
         tl_holding = false;
